@@ -185,7 +185,7 @@ CHECKS = {
     "C20": (
         "fault_enumeration",
         "exhaustive single-fault injection: every fault of the list x every base scenario through main(), each base first run fault-free",
-        "8 base scenarios (forward/reversed x single/multi-file forcing x discrete/continuous release) x 44 single faults through main(), and the same faults "
+        "8 base scenarios (forward/reversed x single/multi-file forcing x discrete/continuous release) x 62 single faults through main(), and the same faults "
         "through `python -m ladim` (one base in quick, all in thorough) reading the process exit status: the run must end with an error, no output record "
         "may exist and the recording IBM must never have been called.",
         "One fault at a time; the error kind is recorded, not prescribed.",
@@ -195,22 +195,26 @@ CHECKS = {
 
 # chosen (not enumerated) scenarios beyond each lattice, added because seeded changes needed scale, horizon or an exact boundary value
 BEYOND = {
-    "C02": "a grid 4200 cells wide with positions off the dyadic lattice; settled particles in the state",
-    "C03": "intervals of 75-150 steps between frames, also with single-precision files",
-    "C04": "tables of 65 000 rows and 3300 continuous ticks; release_time of the new particles",
+    "C19": "plug-in files in the working directory named like ladim's own modules (ibm.py, ROMS.py)",
+    "C13": "every dt of 1..240 s x steps -64..64; period verdicts under every ordered pair of calls in a fresh interpreter",
+    "C11": "a grid reporting its spacing as integers; the real ROMS metric with pm != pn; another grid file under the same path first",
+    "C01": "the real ROMS grid with an anisotropic metric (pm != pn)",
+    "C02": "a grid 4200 cells wide with positions off the dyadic lattice; settled particles in the state; a same-shaped rectangle of the same file built first; storage variants: scale_factor only, one velocity component packed and one float, packed velocity with an offset, NaN on land faces",
+    "C03": "intervals of 75-150 steps between frames, also with single-precision files; the step at the stop time (executed by warm-started runs)",
+    "C04": "tables of 65 000 rows and 3300 continuous ticks; release_time of the new particles; every table is a real file at one path that is rewritten for each table",
     "C05": "crowd histories (120-1200 particles, one or two dead), also through Output.write",
-    "C06": "crowds of 120-700 particles; a reference time in another century; every dense variable also read in one piece with sentinel-initialised buffers",
-    "C07": "file-name prototypes whose counter has or gets five digits; runs in which everything is dead and nothing is left to release",
-    "C08": "a cohort that dies out completely before a late release; the known finding is recognised only by the exact outcome it explains",
-    "C09": "a 260x300 grid with land and open boundary where flat cell numbers exceed 2**15 and 2**16; draw-structure-agnostic diffusion oracle (assignment search)",
-    "C10": "vertical advection (w mirrored, depth compared) and a reference time in another century in one slice",
-    "C12": "one lookup call with 1100 particles in scrambled order against per-column calls",
-    "C14": "crowds of 400 particles next to the observed ones",
+    "C06": "crowds of 120-700 particles; a reference time in another century; every dense variable also read in one piece with sentinel-initialised buffers; time-reversed runs; X packed as 16-bit integers; a second run in one process from the same variable-definition tables",
+    "C07": "file-name prototypes whose counter has or gets five digits; runs in which everything is dead and nothing is left to release; numrec: 0 written out",
+    "C08": "a cohort that dies out completely before a late release; the known finding is recognised only by the exact outcome it explains; a decoy experiment and restart first under the same file names",
+    "C09": "a 260x300 grid with land and open boundary where flat cell numbers exceed 2**15 and 2**16; draw-structure-agnostic diffusion oracle (assignment search); a quarter of the particles released inactive through an `active` column",
+    "C10": "vertical advection (w mirrored, depth compared) and a reference time in another century in one slice; rows sharing a release time; a model of the opposite direction set up first on the same files",
+    "C12": "one lookup call with 1100 particles in scrambled order against per-column calls; theta_s down to 1e-8; explicit hc = 0; every Grid kept in use while later ones are built",
+    "C14": "crowds of 400 particles next to the observed ones; a time-reversed slice; 34 observed particles over 16 steps; near-duplicate lon/lat rows; a settling particle; a plug-in with module-level state",
     "C15": "a 200x220 grid; one random value per step so that the oracle is independent of how the tracker draws",
-    "C16": "grids 1600 cells wide / 1500 cells tall",
-    "C17": "2600 particles released in one step; Runge-Kutta stages exactly on a grid limit; signature-agnostic kernel proxies with write checks",
-    "C18": "a v1 period of 30 h, a reference time at the epoch, an IBM option with value 0.0",
-    "C20": "a record of 800 days with a missing last step; a packed time coordinate; a plug-in grid without ll2xy (each with a control run)",
+    "C16": "grids 1600 cells wide / 1500 cells tall; the sampler on integer and single-precision fields; the same conversions through ladim.ROMS2; a 0..360 grid in the Model runs",
+    "C17": "2600 particles released in one step; Runge-Kutta stages exactly on a grid limit; signature-agnostic kernel proxies with write checks; a second model set up on a smaller rectangle before the first is stepped",
+    "C18": "a v1 period of 30 h, a reference time at the epoch, an IBM option with value 0.0; an IBM without variables; lon/lat columns next to X, Y; a plug-in with module-level state",
+    "C20": "a record of 800 days with a missing last step; a packed time coordinate; a plug-in grid without ll2xy (each with a control run); blank position values; zero/negative dt spellings; a mandatory section missing from a dictionary handed to Model",
 }
 
 PENDING_REASON = "check not built yet (work in progress, see DESIGN.md §11 build order)"
